@@ -24,6 +24,10 @@ ALSO = ("Also not acceptable any more (seen many times): pointers into cached da
         "percent-encoded parameter NAMES, publishing a cache entry before it is complete, verdict of the last slice element only, kinds missing from the required descent, deleting from the caller's rule map, falling back to the default tag, pointers to collections, labels built from the type name instead of the path, the zero time, JSON numbers out of range, doc comments, TrimLeft/TrimRight cut sets, colons in tag values, files without a final newline, "
         "pre-filling cache entries for other tags, digests of tag names, ghost map entries after a rebuild, TryLock, check-then-act on the capacity, a second mutex, deferred work after the unlock, an object put into the wrong pool, return inside the loop over groups, a shared name buffer, dir on a regular file, lookup tables indexed by reflect.Kind, '%' and format strings, an empty value after '=', quoted values with a message, arguments in the wrong slot, return instead of continue on nil elements, "
         "letter case of rule names or arguments, an unknown rule in front of a group rule, %3D / %26 inside URL values, float map values, directory names that are glob patterns, a changed-flag overwritten in a loop, numeric map keys in the dumper, apostrophes, "
+        "bounds outside the field type's range, negative bounds, exactly two datetime separators, int on floats, fields without @tag but with a plain comment, comment pairs identical to existing pairs, literals that repeat a key, annotated fields without a literal, "
+        "the struct dumper sharing the type cache, pre-split rules on cache hits, stale map aliases across a rebuild, de-duplicated callbacks, reading fields before taking the lock, Len-then-walk in Dump, Signal instead of Broadcast, channel-backed pools, duplicate rule tokens in a tag, "
+        "json on non-byte slices, empty options in in/include, setting the same rules twice, the first or last code point of the CJK range, an ideograph as last character, absent keys with several rules, required with a message on nested members, function rules on struct-kind fields, "
+        "interface members of different dynamic types, defined string key types, strings.Split instead of the quote-aware splitter, required on false, '$' in tag literals, WalkDir/SkipDir, ',}' inside strings, slices of defined string types, negative zero, case-insensitive sorting, an always-empty Dump, "
         "group keys, a second '?' in a URL, trailing data after JSON, messages containing '=', unexported fields named by a rule map, nil interfaces, control characters, multi-line comments, exit status / && short-circuits, empty slices. "
         "First read ALL non-test source files and the README; make a list of every function, branch and documented behaviour relevant to this property "
         "that NONE of the items above touches, and pick from that list. Prefer faults in code paths that look boring (helpers in common.go / init.go / "
